@@ -382,6 +382,28 @@ def w2(e: Engine, rep: Report):
               % (len(cs) if cs else 0))
 
 
+def _reply_writers(e, ctx):
+    """send_reply, the module-level functions it calls by name and the
+    private methods of its class it calls through self / cls / the class"""
+    mod = ctx.func.module
+    fns = [ctx.func.node]
+    cname = ctx.func.cls.name if ctx.func.cls is not None else None
+    for x in walk_own(ctx.func.node):
+        if isinstance(x, ast.Call) and isinstance(x.func, ast.Name):
+            for st in mod.tree.body:
+                if isinstance(st, ast.FunctionDef) and st.name == x.func.id \
+                        and st not in fns:
+                    fns.append(st)
+        elif isinstance(x, ast.Call) and isinstance(x.func, ast.Attribute) \
+                and isinstance(x.func.value, ast.Name) and \
+                x.func.value.id in ('self', 'cls', cname) and \
+                x.func.attr.startswith('_') and ctx.func.cls is not None:
+            m = e.p.lookup_method(ctx.func.cls.qname, x.func.attr)
+            if m is not None and m.node not in fns:
+                fns.append(m.node)
+    return fns
+
+
 def _w2_sequence_shape(e, rep, ctx, where, sep_set, marker, accepts_tail):
     """send_reply spelled with a separator sequence:
         separators = [CONT] * (len(lines) - 1) + [LAST]
@@ -390,12 +412,7 @@ def _w2_sequence_shape(e, rep, ctx, where, sep_set, marker, accepts_tail):
     (composition by `+` or by b''.join of a tuple; in send_reply itself or in
     a module-level helper it calls).  True when read and judged."""
     mod = ctx.func.module
-    fns = [ctx.func.node]
-    for x in walk_own(ctx.func.node):
-        if isinstance(x, ast.Call) and isinstance(x.func, ast.Name):
-            for st in mod.tree.body:
-                if isinstance(st, ast.FunctionDef) and st.name == x.func.id:
-                    fns.append(st)
+    fns = _reply_writers(e, ctx)
 
     def const(x):
         if isinstance(x, ast.Constant) and isinstance(x.value, bytes):
@@ -514,13 +531,7 @@ def _w2_flag_shape(e, rep, ctx, where, sep_set, marker, accepts_tail):
     True when read and judged."""
     mod = ctx.func.module
     top = ctx.func.node
-    fns = [top]
-    for x in walk_own(top):
-        if isinstance(x, ast.Call) and isinstance(x.func, ast.Name):
-            for st in mod.tree.body:
-                if isinstance(st, ast.FunctionDef) and st.name == x.func.id \
-                        and st not in fns:
-                    fns.append(st)
+    fns = _reply_writers(e, ctx)
 
     def once(fn, name):
         ds = [a.value for a in ast.walk(fn) if isinstance(a, ast.Assign)
@@ -623,12 +634,20 @@ def _w2_flag_shape(e, rep, ctx, where, sep_set, marker, accepts_tail):
                             for y in ast.walk(fn))):
                     continue
                 calls = [c for c in ast.walk(top) if isinstance(c, ast.Call)
-                         and isinstance(c.func, ast.Name) and
-                         c.func.id == fn.name]
+                         and ((isinstance(c.func, ast.Name) and
+                               c.func.id == fn.name) or
+                              (isinstance(c.func, ast.Attribute) and
+                               c.func.attr == fn.name))]
                 if len(calls) != 1:
                     continue
                 c = calls[0]
                 k = params.index(test.id)
+                if isinstance(c.func, ast.Attribute) and not any(
+                        ast.unparse(d).endswith('staticmethod')
+                        for d in fn.decorator_list):
+                    k -= 1               # bound: self / cls is not passed
+                if k < 0:
+                    continue
                 arg = c.args[k] if k < len(c.args) and not any(
                     isinstance(a, ast.Starred) for a in c.args) else None
                 for kw in c.keywords:
